@@ -320,7 +320,7 @@ fn build_expr(
                 ty,
             }
         }
-        hir::Expr::EStructLiteral { .. } => {
+        hir::Expr::EStructLiteral { fields, .. } => {
             let Some(elab) = results.struct_lit_elab(expr_id) else {
                 return tast::Expr::EVar {
                     name: "<error>".to_string(),
@@ -341,10 +341,57 @@ fn build_expr(
                 })
                 .collect::<Vec<_>>();
             let ty = results.expr_ty(expr_id).cloned().unwrap_or(tast::Ty::TUnit);
-            tast::Expr::EConstr {
-                constructor: elab.constructor.clone(),
-                args,
-                ty,
+            // Operands are evaluated left to right as written; the constructor takes them in
+            // declaration order. When the two orders differ, name the field values in written
+            // order first.
+            let declared: Vec<hir::ExprId> = elab
+                .args
+                .iter()
+                .filter_map(|arg| match arg {
+                    StructLitArgElab::Expr(e) => Some(*e),
+                    StructLitArgElab::Missing { .. } => None,
+                })
+                .collect();
+            let written: Vec<hir::ExprId> = fields.iter().map(|(_, e)| *e).collect();
+            if declared.len() == elab.args.len() && declared.len() == written.len() && declared != written {
+                let temp = |e: &hir::ExprId| format!("field{}/{}", e.idx, expr_id.idx);
+                let mut exprs = Vec::with_capacity(written.len() + 1);
+                for e in &written {
+                    let Some(pos) = declared.iter().position(|d| d == e) else {
+                        continue;
+                    };
+                    let value = args[pos].clone();
+                    exprs.push(tast::Expr::ELet {
+                        pat: tast::Pat::PVar {
+                            name: temp(e),
+                            ty: value.get_ty(),
+                            astptr: None,
+                        },
+                        value: Box::new(value),
+                        ty: tast::Ty::TUnit,
+                    });
+                }
+                let named_args = declared
+                    .iter()
+                    .zip(args.iter())
+                    .map(|(e, arg)| tast::Expr::EVar {
+                        name: temp(e),
+                        ty: arg.get_ty(),
+                        astptr: None,
+                    })
+                    .collect();
+                exprs.push(tast::Expr::EConstr {
+                    constructor: elab.constructor.clone(),
+                    args: named_args,
+                    ty: ty.clone(),
+                });
+                tast::Expr::EBlock { exprs, ty }
+            } else {
+                tast::Expr::EConstr {
+                    constructor: elab.constructor.clone(),
+                    args,
+                    ty,
+                }
             }
         }
         hir::Expr::ETuple { items } => {
